@@ -164,6 +164,19 @@ def r13_3(cx):
                         good = edge
         cx.check(good is not None, 'validated-return', fn, fn.loc(rb), 'return dominated by the equal edge bb%s->bb%s of the sequence re-check' % (good or ('?', '?')),
                  fail_detail='a return of snapshot is not dominated by sequence == re-loaded sequence')
+    # nothing in snapshot can panic before the read has been validated: a torn pair that the re-check would discard
+    # must not reach the voucher assertion
+    eq_blocks = set()
+    for b in fn.live_blocks():
+        for e, val, edge in fn.facts_at(b):
+            rel = as_relation((e, val))
+            if rel and rel[0] == 'Eq' and all_seq_loads(rel[1]) and all_seq_loads(rel[2]):
+                eq_blocks.add(b)
+    early = [c for c in fn.calls() if ('panicking' in c.callee or c.callee.endswith('CheckingParameters::check')) and c.bb not in eq_blocks
+             and not any(x['k'] == 'index' for x in [])]
+    early = [c for c in early if 'panic_bounds_check' not in c.callee]
+    cx.check(not early, 'no-panic-before-validation', fn, early[0].loc() if early else None, 'the voucher assertion runs only on the validated (sequence unchanged) edge',
+             fail_detail='%s runs on a read that has not been validated yet: a transient torn pair panics instead of being retried' % (short(early[0].callee) if early else ''))
     # every sequence value the reader relies on was loaded with at least Acquire, also when it goes through an accessor
     srcs = []
     for b in sorted(fn.live_blocks()):
@@ -269,6 +282,13 @@ def r13_5(cx):
                         ok = True
         cx.check(ok, 'token-from-guard', cs.fn, cs.loc(), 'the &mut WriteToken is borrowed from a MutexGuard of self.%s: %s' % (m.lock, show(tok) if tok else '?'),
                  fail_detail='the WriteToken passed to the publisher does not come from a guard of self.%s: %s' % (m.lock, show(tok) if tok else 'no token argument'))
+    # the blocking update always publishes: every way out of update() goes through the publisher (a poisoned lock
+    # is cleared and retried, not an excuse to drop the update)
+    up = m.update
+    pubs = [c.bb for c in up.calls(m.publisher.name)]
+    skip = up.path(0, up.returns(), cut_blocks=pubs) if pubs else [0]
+    cx.check(bool(pubs) and skip is None, 'update-always-publishes', up, None, 'every return of update() follows a call of the publisher',
+             fail_detail='update() can return without having called %s: a completed update is silently dropped (%s)' % (short(m.publisher.name), up.show_path(skip) if skip else ''))
     # WriteToken constructed only in new
     mk = []
     for f in prog.fns.values():
